@@ -241,7 +241,7 @@ func (dc *DomConverter) visitElementNodeHandler(node *html.Node) bool {
 		return false
 
 	// These types are skipped and don't affect document construction.
-	case "head", "style", "script", "link", "noscript", "iframe", "svg":
+	case "head", "style", "script", "link", "noscript", "iframe", "svg", "template":
 		return false
 	}
 
